@@ -6,6 +6,11 @@ use std::io::Write;
 use crate::prng::Rng;
 
 pub mod c01;
+pub mod c02;
+pub mod c03;
+pub mod c05;
+pub mod c09;
+pub mod selftest;
 
 #[derive(Clone, Debug)]
 pub struct RunCfg {
@@ -251,6 +256,11 @@ pub fn norm_loc(loc: &str) -> String {
 pub fn dispatch(cfg: &RunCfg, rep: &mut Report) -> bool {
     match cfg.prop.as_str() {
         "C01" => c01::run(cfg, rep),
+        "C02" => c02::run(cfg, rep),
+        "C03" => c03::run(cfg, rep),
+        "C05" => c05::run(cfg, rep),
+        "C09" => c09::run(cfg, rep),
+        "ST" => selftest::run(cfg, rep),
         _ => return false,
     }
     true
